@@ -37,6 +37,9 @@ CLAIMED["C08"] = dict(tech="property-based testing (rapid) against the harness t
 CLAIMED["C07"] = dict(tech="property-based testing (rapid): differential between the constrained and the unconstrained read through the same writer, against per-parameter projection predicates of the harness",
       text="Generated-input search: schema with config/non-config nodes, defaults, nested lists and choices + data with leaves planted at their defaults; target root / container / list entry; 1-3 of content, depth, fields / fc.xfields (multi-segment, alternative and grouped paths), with-defaults, through Find(path?query) and Constrain(query). The set of (path, value) of non-key leaves must equal the intersection of the parameters' projections of the unconstrained read, the store is unchanged, invalid values are errors. A second check windows lists with fc.range (empty, open, out-of-range, nested lists) and bounds fc.max-node-count.",
       note="Tolerances of DESIGN.md 4.2: empty shells and key leaves in emptied regions are not asserted; fc.range end bound accepted as inclusive or exclusive; fc.max-node-count only in clear-cut cases. One open known finding (fc.max-node-count not enforced).", ref="7 C07")
+CLAIMED["C05"] = dict(tech="property-based testing (rapid) against a math/big restriction evaluator, plus an enumerated membership product for enum/bits/identityref/union",
+      text="Generated-input search: range restrictions on every numeric base (alternatives, single values, min/max, negative and 64-bit bounds, decimal64) and length/pattern restrictions on strings, derived through 0-2 narrowing typedef levels, on leaves and leaf-lists; candidates are the boundaries of every level and their neighbours; written through Set, SetValue, Upsert/Insert/Update from JSON, Upsert from XML and from another node, into the reference store and a map-backed Reflect. Accepted iff the harness evaluator says the value is inside every level and matches every (anchored) pattern; a rejected write returns an error and leaves the leaf unchanged. Membership of enumeration, bits, identityref and union leaves is enumerated as a full product of values x paths.",
+      note="Patterns come from a regex subset on which XSD and RE2 agree. One open known finding (several patterns are OR-ed; pinned by the suite). Whether the base identity itself is acceptable is not asserted.", ref="7 C05")
 NOT_YET = {}
 props = [json.loads(l) for l in open(os.path.join(ROOT, "properties.jsonl"))]
 checks, na = [], []
